@@ -1063,13 +1063,32 @@ pub enum AppearanceStreamEntry {
     Single(FormXObject),
     Dict(HashMap<Name, AppearanceStreamEntry>)
 }
-impl Object for AppearanceStreamEntry {
-    fn from_primitive(p: Primitive, resolve: &impl Resolve) -> Result<Self> {
+/// how deep appearance sub-dictionaries may be nested (the standard has one level: a dictionary of states)
+const APPEARANCE_DEPTH: usize = 8;
+
+impl AppearanceStreamEntry {
+    fn from_primitive_depth(p: Primitive, resolve: &impl Resolve, depth: usize) -> Result<Self> {
         match p.resolve(resolve)? {
-            p @ Primitive::Dictionary(_) => Object::from_primitive(p, resolve).map(AppearanceStreamEntry::Dict),
+            Primitive::Dictionary(dict) => {
+                // the entries are appearance entries again: a sub-dictionary that (indirectly)
+                // contains itself must not be followed without end
+                if depth == 0 {
+                    bail!("appearance dictionaries are nested deeper than {}", APPEARANCE_DEPTH);
+                }
+                let mut states = HashMap::new();
+                for (key, val) in dict.iter() {
+                    states.insert(key.clone(), Self::from_primitive_depth(val.clone(), resolve, depth - 1)?);
+                }
+                Ok(AppearanceStreamEntry::Dict(states))
+            }
             p @ Primitive::Stream(_) => Object::from_primitive(p, resolve).map(AppearanceStreamEntry::Single),
             p => Err(PdfError::UnexpectedPrimitive {expected: "Dict or Stream", found: p.get_debug_name()})
         }
+    }
+}
+impl Object for AppearanceStreamEntry {
+    fn from_primitive(p: Primitive, resolve: &impl Resolve) -> Result<Self> {
+        Self::from_primitive_depth(p, resolve, APPEARANCE_DEPTH)
     }
 }
 impl ObjectWrite for AppearanceStreamEntry {
